@@ -62,6 +62,23 @@ def threshold (s : FS) : Thr :=
         | none => .panic
         | some ln => .at (min ln (frozenNumber s + MAX_FREEZE_LIMIT))
 
+/-- the same computation with `freezer.number()` passed in (`Model/FreezeSys.lean` reads it from the
+freezer files instead of the abstract list); `threshold s = thresholdAt s (frozenNumber s)` by `rfl` -/
+def thresholdAt (s : FS) (fnum : Nat) : Thr :=
+  match s.v.m.curEpoch with
+  | none => .panic
+  | some ce =>
+    if ce.number ≤ THRESHOLD_EPOCH then .idle else
+    match s.v.m.epochNum (ce.number + 1 - THRESHOLD_EPOCH) with
+    | none => .panic
+    | some idx =>
+      match s.v.r.epochExt idx with
+      | none => .panic
+      | some e =>
+        match s.v.m.rindex e.key with
+        | none => .panic
+        | some ln => .at (min ln (fnum + MAX_FREEZE_LIMIT))
+
 /-- `get_block_hash(number).and_then(get_unfrozen_block)` (a header without body rows would make the
 real accessor panic; it is `none` here) -/
 def getUnfrozen (s : FS) (n : Nat) : Option Block :=
